@@ -10,7 +10,7 @@ Record c2_case := { c2_prog : prog; c2_enums : list enum; c2_ana : ana_obs; c2_d
 Definition doc_ok (c : c2_case) (tj : gty * json) : bool :=
   let nodes := ao_nodes (c2_ana c) in
   conformsb (env_of (c2_prog c) nodes (c2_enums c)) (2 * json_depth (snd tj) + 6)
-            (shape_of nodes (c2_enums c) 12 false (fst tj)) (snd tj).
+            (shape_of (c2_prog c) nodes (c2_enums c) 12 false (fst tj)) (snd tj).
 
 Definition chk (c : c2_case) : bool := forallb (doc_ok c) (c2_docs c).
 
